@@ -227,12 +227,77 @@ func guardedByCount(in ssa.Instruction, cnt ssa.Value, af string, av ssa.Value) 
 		}
 	}
 	// the count was examined by a test that every path to the consumer has passed
-	for d := in.Block().Idom(); d != nil; d = d.Idom() {
+	isCntTest := func(d *ssa.BasicBlock) bool {
 		if iff, ok := d.Instrs[len(d.Instrs)-1].(*ssa.If); ok {
 			if b, ok := iff.Cond.(*ssa.BinOp); ok && (fromCnt(b.X) || fromCnt(b.Y)) {
 				return true
 			}
 		}
+		return false
 	}
-	return false
+	for d := in.Block().Idom(); d != nil; d = d.Idom() {
+		if isCntTest(d) {
+			return true
+		}
+	}
+	// ... or every feasible path has: walking back from the consumer, a path that would avoid every count test has to
+	// take both outcomes of one boolean (case a && n == k: ...; case a: use) and does not exist
+	var cntDef *ssa.BasicBlock
+	if ex, ok := cnt.(*ssa.Extract); ok {
+		cntDef = ex.Block()
+	}
+	if cntDef == nil {
+		return false
+	}
+	budget := 4000
+	var back func(b *ssa.BasicBlock, assume map[ssa.Value]bool, onPath map[*ssa.BasicBlock]bool) bool
+	back = func(b *ssa.BasicBlock, assume map[ssa.Value]bool, onPath map[*ssa.BasicBlock]bool) bool {
+		// true: every feasible path from the read to b passes a count test
+		if budget--; budget < 0 {
+			return false
+		}
+		if b == cntDef {
+			return false
+		}
+		if len(b.Preds) == 0 {
+			return true // not reachable from the read
+		}
+		for _, pr := range b.Preds {
+			if onPath[pr] {
+				continue
+			}
+			next := assume
+			if iff, ok := pr.Instrs[len(pr.Instrs)-1].(*ssa.If); ok && pr.Succs[0] != pr.Succs[1] {
+				cond, truth := iff.Cond, pr.Succs[0] == b
+				for {
+					u, ok := cond.(*ssa.UnOp)
+					if !ok || u.Op != token.NOT {
+						break
+					}
+					cond, truth = u.X, !truth
+				}
+				if have, ok := assume[cond]; ok {
+					if have != truth {
+						continue // infeasible: the same boolean would have to be both true and false
+					}
+				} else {
+					next = map[ssa.Value]bool{cond: truth}
+					for k, v := range assume {
+						next[k] = v
+					}
+				}
+			}
+			if isCntTest(pr) {
+				continue
+			}
+			onPath[pr] = true
+			ok := back(pr, next, onPath)
+			delete(onPath, pr)
+			if !ok {
+				return false
+			}
+		}
+		return true
+	}
+	return back(in.Block(), map[ssa.Value]bool{}, map[*ssa.BasicBlock]bool{in.Block(): true})
 }
